@@ -129,14 +129,29 @@ def run(chk):
             raise AnalysisError(f'{name}.change_args vanished')
         objs[name] = (self_obj, ms)
         region.update(low=False, high=False, lowmod=False)
-        M = it.call(mm, ms['_implementation'], [w, mu, eta], self_obj=self_obj)
+        # every outcome of a test the implementation makes on its arguments besides the recognised extreme-value guards (a shortcut for a stiff or a soft limit): the
+        # published law is demanded on each of them -- an arm that returns an expansion of the law instead of the law fails here
+        from ..core.interp import PathExplorer
+
+        def one_impl(fork, ms=ms, self_obj=self_obj):
+            it.hooks['fork'] = fork
+            try: return it.call(mm, ms['_implementation'], [w, mu, eta], self_obj=self_obj)
+            finally: it.hooks.pop('fork', None)
+        arms_ = PathExplorer(max_paths=16).run(one_impl)
+        M = arms_[0][1]
         main[name] = M
         where = mm.where(ms['_implementation'])
         eq('R07.1', f'{name}: modulus(omega, mu, eta, params) * J_published == 1', M * JREF[name], X.ONE, where, key=f'R07.1|{name}')
+        for tr_, M_arm in arms_[1:]:
+            eq('R07.1', f'{name}: modulus(omega, mu, eta, params) * J_published == 1' + PathExplorer.label(tr_), M_arm * JREF[name], X.ONE, where, key=f'R07.1|{name}|' + PathExplorer.label(tr_))
         chk.note_analysed('functions', f'models.{name}._implementation')
         # frequency enters only through |frequency|: M(-omega) == M(omega)
         wn = X.atom('omega_signed')
-        Mn = it.call(mm, ms['_implementation'], [wn, mu, eta], self_obj=self_obj)
+        def one_neg(fork, ms=ms, self_obj=self_obj, wn=wn):
+            it.hooks['fork'] = fork
+            try: return it.call(mm, ms['_implementation'], [wn, mu, eta], self_obj=self_obj)
+            finally: it.hooks.pop('fork', None)
+        Mn = PathExplorer(max_paths=16).run(one_neg)[0][1]
         eq('R07.1', f'{name}: depends on |frequency| only', X.subst(Mn, {'omega_signed': -w}), M, where)
         # no writes to self in _implementation (prange thread safety)
         writes = [ast.unparse(n_) for n_ in ast.walk(ms['_implementation']) if isinstance(n_, ast.Attribute) and isinstance(n_.ctx, ast.Store)]
@@ -157,8 +172,13 @@ def run(chk):
     def guard_value(name, **reg):
         region.update(low=False, high=False, lowmod=False); region.update(reg)
         self_obj, ms = objs[name]
+        def one_g(fork):
+            it.hooks['fork'] = fork
+            try: return it.call(mm, ms['_implementation'], [w, mu, eta], self_obj=self_obj)
+            finally: it.hooks.pop('fork', None)
         try:
-            v = it.call(mm, ms['_implementation'], [w, mu, eta], self_obj=self_obj)
+            from ..core.interp import PathExplorer as _PE
+            v = _PE(max_paths=16).run(one_g)[0][1]
         finally:
             region.update(low=False, high=False, lowmod=False)
         return v
